@@ -281,7 +281,11 @@ def _atom_depends(a, aid):
     if d[0] in ("exp", "sin", "cos", "sqrt"):
         return _poly_from_key(d[1]).depends_on(aid)
     if d[0] == "fn":
-        return any(_poly_from_key(k).depends_on(aid) for k in d[2] if isinstance(k, tuple))
+        for k in d[2]:
+            if isinstance(k, tuple) and k and k[0] == "rat":
+                if _poly_from_key(k[1]).depends_on(aid) or _poly_from_key(k[2]).depends_on(aid):
+                    return True
+        return False
     return False
 
 
